@@ -129,7 +129,125 @@ def ble_drop_reasons(ctx: Ctx) -> None:
                 res.violation(f"C09/over-bound/{name}", f"{name}: drop reported after 0.01 s, call ended after {rec.t_ret - rec.t_call:.4f}s", case)
 
 
+def stalled_writer_bounds(ctx: Ctx) -> None:
+    """The device stops reading while the client has a lot queued (the transport passes its high-water mark and pauses the protocol): awaited
+    calls made then - a request-response call, disconnect() - still end within their bound with a library error; nothing hangs."""
+    import base64
+
+    from aioesphomeapi.core import APIConnectionError
+    from vf.sim.device import DeviceConfig
+    from vf.sim.scenario import Sim
+
+    res = ctx.res
+    psk = bytes(range(9, 41))
+    idx = 0
+    for framing in ("plain", "noise"):
+        for nbytes in (40 * 1024, 200 * 1024, 900 * 1024):
+            for then in ("device_info", "disconnect", "device_info+force", "list_entities"):
+                idx += 1
+                if not ctx.mine(idx):
+                    continue
+                with Sim() as sim:
+                    dev = sim.device(DeviceConfig(noise_psk=psk if framing == "noise" else None))
+                    cli = sim.client(keepalive=1e5, **({"noise_psk": base64.b64encode(psk).decode()} if framing == "noise" else {}))
+                    c0 = sim.call("connect", lambda: cli.connect(login=False))
+                    sim.run(until=lambda: c0.done, max_time=sim.clock + 50)
+                    if c0.outcome != "ok":
+                        res.inconclusive.append(f"stalled writer: connect failed {c0.exc!r}")
+                        continue
+                    dev.conn.sock.send_fault = "block"
+                    try:
+                        for _ in range(nbytes // 1024):
+                            cli.send_voice_assistant_audio(b"\x00" * 1024)
+                    except Exception as e:  # noqa: BLE001
+                        res.inconclusive.append(f"stalled writer: queuing raised {e!r}")
+                        continue
+                    sim.run_for(0.01)
+                    paused = any(getattr(t, "_protocol_paused", False) for t in sim.transports)
+                    bound = {"device_info": 10.0, "disconnect": 15.0, "device_info+force": 10.0, "list_entities": 60.0}[then]
+                    name = then.split("+")[0]
+                    call = sim.call(name, lambda: cli.disconnect() if name == "disconnect" else cli.device_info() if name == "device_info" else cli.list_entities_services())
+                    if then.endswith("+force"):
+                        sim.run_for(1.0)
+                        f = sim.call("force_disconnect", lambda: cli.disconnect(force=True))
+                        bound = 1.0
+                    sim.run(until=lambda: call.done, max_time=sim.clock + bound + 30)
+                    res.evaluations += 1
+                    res.count("baseline/device-stops-reading-then-call")
+                    res.count("oracle_evaluations")
+                    res.count(f"observed/c09/stalled-writer/protocol-paused={paused}/{then}/{call.outcome}/{type(call.exc).__name__ if call.exc else None}")
+                    res.sigs.add(f"stalled-writer/{framing}/{nbytes}/{then}")
+                    case = {"spec": None, "stalled_writer": {"framing": framing, "queued_bytes": nbytes, "then": then}}
+                    dur = None if call.t_ret is None else call.t_ret - call.t_call
+                    if not call.done:
+                        res.violation(f"C09/hang/{name}", f"{framing}: device stopped reading with {nbytes} bytes queued (protocol paused: {paused}); {name}() still pending "
+                                      f"{bound + 30:.0f}s later (bound {bound}s)", case, trace=sim.trace(30))
+                    elif call.outcome == "raised" and not isinstance(call.exc, APIConnectionError):
+                        res.violation(f"C09/raw-exception/{name}/{type(call.exc).__name__}", f"{name}() with a stalled writer raised {call.exc!r}", case, trace=sim.trace(30))
+                    elif dur is not None and dur > bound + 1e-6:
+                        res.violation(f"C09/over-bound/{name}", f"{name}() with a stalled writer took {dur:.3f}s, bound {bound}s", case, trace=sim.trace(30))
+
+
+def overlapping_disconnects(ctx: Ctx) -> None:
+    """Two disconnect() calls overlap (two parts of an application shutting down); one of them is cancelled by its caller while the device has
+    not yet acknowledged: the other still returns normally, and nothing raw escapes from either."""
+    from aioesphomeapi.core import APIConnectionError
+    from vf.sim.device import DeviceConfig
+    from vf.sim.scenario import Sim
+
+    res = ctx.res
+    idx = 0
+    for answer_after in (1.0, None):
+        for cancel_which in ("second", "first", "none", "both"):
+            for gap in (0.0, 0.1):
+                idx += 1
+                if not ctx.mine(idx):
+                    continue
+                with Sim() as sim:
+                    cfg = DeviceConfig(reply_delay=0.001)
+                    if answer_after is None:
+                        cfg.answer_disconnect = False
+                    else:
+                        cfg.handlers["DisconnectRequest"] = lambda c, m, d=answer_after: c.send("DisconnectResponse", _delay=d)
+                    sim.device(cfg)
+                    cli = sim.client(keepalive=1e5)
+                    c0 = sim.call("connect", lambda: cli.connect(login=False))
+                    sim.run(until=lambda: c0.done, max_time=sim.clock + 50)
+                    if c0.outcome != "ok":
+                        res.inconclusive.append(f"overlapping disconnects: connect failed {c0.exc!r}")
+                        continue
+                    a = sim.call("disconnect", lambda: cli.disconnect())
+                    if gap:
+                        sim.run_for(gap)
+                    else:
+                        sim.settle()
+                    b = sim.call("disconnect", lambda: cli.disconnect())
+                    sim.run_for(0.4)
+                    for which, rec in (("first", a), ("second", b)):
+                        if cancel_which in (which, "both") and not rec.done:
+                            sim.cancel(rec)
+                    sim.run(until=lambda: a.done and b.done, max_time=sim.clock + 40)
+                    res.evaluations += 1
+                    res.count("baseline/overlapping-disconnects")
+                    res.count("oracle_evaluations")
+                    res.sigs.add(f"overlap-disc/{answer_after}/{cancel_which}/{gap}")
+                    case = {"spec": None, "overlapping_disconnects": {"device_answers_after": answer_after, "cancelled": cancel_which, "gap": gap}}
+                    for which, rec in (("first", a), ("second", b)):
+                        res.count(f"observed/c09/overlapping-disconnects/{which}/{rec.outcome}/{type(rec.exc).__name__ if rec.exc else None}")
+                        cancelled = cancel_which in (which, "both")
+                        if not rec.done:
+                            res.violation("C09/hang/disconnect", f"{which} of two overlapping disconnect() calls still pending 40 s later (cancelled: {cancel_which})", case, trace=sim.trace(30))
+                        elif rec.outcome == "raised" and not isinstance(rec.exc, APIConnectionError):
+                            res.violation(f"C09/raw-exception/disconnect/{type(rec.exc).__name__}", f"{which} of two overlapping disconnect() calls raised {rec.exc!r} "
+                                          f"(cancelled by its caller: {cancel_which})", case, trace=sim.trace(30))
+                        elif rec.outcome == "cancelled" and not cancelled:
+                            res.violation("C09/unrequested-cancel/disconnect", f"{which} disconnect() ended cancelled although only the {cancel_which} one was cancelled", case,
+                                          trace=sim.trace(30))
+
+
 def shard(ctx: Ctx) -> None:
+    stalled_writer_bounds(ctx)
+    overlapping_disconnects(ctx)
     ble_time_bounds(ctx)
     ble_drop_reasons(ctx)
     rejection_then_hangup(ctx)
